@@ -1,7 +1,7 @@
 SPECIFICATION Spec
 CONSTANTS
   L = 7
-  F = 11
+  F = 13
   B = 3
   Emit = TRUE
 CHECK_DEADLOCK FALSE
